@@ -26,9 +26,20 @@ type handClock struct {
 	ch      chan time.Time
 	tickers int
 	dur     time.Duration
+	elapsed time.Duration // harness-owned time: advanced by the properties between operations
 }
 
-func (c *handClock) Now() time.Time { return time.Unix(0, 0) }
+func (c *handClock) Now() time.Time {
+	c.mu.Lock()
+	defer c.mu.Unlock()
+	return time.Unix(0, 0).Add(c.elapsed)
+}
+
+func (c *handClock) advance(d time.Duration) {
+	c.mu.Lock()
+	c.elapsed += d
+	c.mu.Unlock()
+}
 func (c *handClock) NewTicker(d time.Duration) *time.Ticker {
 	c.mu.Lock()
 	defer c.mu.Unlock()
@@ -136,6 +147,7 @@ func propC12Sequential(t *rapid.T) {
 	acceptedBytes := 0
 	boundaries := map[int]bool{0: true}
 	stopped, initialized := false, false
+	var lastTick time.Duration
 	var hist []string
 	sawNoFit, sawLarge, sawTick := false, false, false
 	fail := func(f string, a ...any) {
@@ -206,6 +218,15 @@ func propC12Sequential(t *rapid.T) {
 			doWrite(n)
 		},
 		"write2": func(rt *rapid.T) { doWrite(rapid.IntRange(0, size+3).Draw(rt, "len")) },
+		"elapse": func(rt *rapid.T) {
+			// time passes between operations: a fraction of the flush interval
+			iv := bws.FlushInterval
+			if iv <= 0 {
+				iv = 30 * time.Second
+			}
+			clk.advance(iv * time.Duration(rapid.IntRange(1, 9).Draw(rt, "tenths")) / 10)
+			hist = append(hist, "e")
+		},
 		"sync": func(*rapid.T) {
 			_, _, s0, _ := sink.state()
 			if err := bws.Sync(); err != nil {
@@ -232,8 +253,14 @@ func propC12Sequential(t *rapid.T) {
 				return
 			}
 			_, _, s0, _ := sink.state()
+			// a tick arrives a full interval after the previous one; explicit Syncs and Writes may have
+			// happened at any moment in between (the clock is advanced by drawn fractions before every op)
+			if next := lastTick + bws.FlushInterval; clk.Now().Sub(time.Unix(0, 0)) < next {
+				clk.advance(next - clk.Now().Sub(time.Unix(0, 0)))
+			}
+			lastTick = clk.Now().Sub(time.Unix(0, 0))
 			select {
-			case ch <- time.Unix(1, 0):
+			case ch <- clk.Now():
 			case <-time.After(3 * time.Second):
 				fail("VERIF-DEADLOCK flush loop did not take a tick within 3s")
 			}
@@ -713,6 +740,161 @@ func propC12Crash(t *rapid.T) {
 		statSample("C12", func() string { return string(js) + fmt.Sprintf(" => file has %d writes, acked %d", j, acked) })
 	}
 }
+
+// ---- sink faults (fault enumeration over the position of a failing sink call) ----
+//
+// faultOpSink fails the sink Write and Sync calls whose indices are scripted.
+// A failing Write stores nothing. Oracle, sound whatever the syncer does
+// internally after a fault: a Sync or Stop that returns nil promises that
+// everything accepted before it is in the sink and that the sink was synced
+// afterwards; an error is only ever returned after a sink fault; and as long
+// as no sink WRITE has failed, a failed sink Sync costs nothing - the bytes are
+// all there and every later Sync reaches the sink again.
+type faultOpSink struct {
+	mu         sync.Mutex
+	total      int
+	writeCalls int
+	syncCalls  int
+	okSyncAt   int // sink total at the last successful Sync
+	failWrite  map[int]bool
+	failSync   map[int]bool
+	wFaults    int
+	sFaults    int
+}
+
+func (s *faultOpSink) Write(p []byte) (int, error) {
+	s.mu.Lock()
+	defer s.mu.Unlock()
+	i := s.writeCalls
+	s.writeCalls++
+	if s.failWrite[i] {
+		s.wFaults++
+		return 0, fmt.Errorf("sink write %d fails", i)
+	}
+	s.total += len(p)
+	return len(p), nil
+}
+
+func (s *faultOpSink) Sync() error {
+	s.mu.Lock()
+	defer s.mu.Unlock()
+	i := s.syncCalls
+	s.syncCalls++
+	if s.failSync[i] {
+		s.sFaults++
+		return fmt.Errorf("sink sync %d fails", i)
+	}
+	s.okSyncAt = s.total
+	return nil
+}
+
+func (s *faultOpSink) snap() (total, syncCalls, okSyncAt, wFaults, sFaults int) {
+	s.mu.Lock()
+	defer s.mu.Unlock()
+	return s.total, s.syncCalls, s.okSyncAt, s.wFaults, s.sFaults
+}
+
+func propC12Faults(t *rapid.T) {
+	size := rapid.IntRange(4, 64).Draw(t, "size")
+	clk := &handClock{}
+	sink := &faultOpSink{failWrite: map[int]bool{}, failSync: map[int]bool{}}
+	for i := 0; i < 12; i++ {
+		if rapid.IntRange(0, 5).Draw(t, "syncFails") == 0 {
+			sink.failSync[i] = true
+		}
+		if rapid.IntRange(0, 9).Draw(t, "writeFails") == 0 {
+			sink.failWrite[i] = true
+		}
+	}
+	bws := &zapcore.BufferedWriteSyncer{WS: sink, Size: size, FlushInterval: time.Second, Clock: clk}
+	accepted := 0
+	var hist []string
+	fail := func(f string, a ...any) {
+		t.Fatalf("%s\n size %d, failing sink writes %v, failing sink syncs %v\n history: %s", fmt.Sprintf(f, a...), size, sink.failWrite, sink.failSync, strings.Join(hist, " "))
+	}
+	afterFlush := func(what string, err error, s0 int) {
+		total, sc, okAt, wf, sf := sink.snap()
+		if err != nil && wf == 0 && sf == 0 {
+			fail("%s returned %v although no sink call has failed", what, err)
+		}
+		if err == nil {
+			if total != accepted {
+				fail("%s returned nil, but %d of the %d accepted bytes are in the sink", what, total, accepted)
+			}
+			if okAt != total {
+				fail("%s returned nil, but the sink was not (successfully) synced after its last write: synced at %d of %d bytes", what, okAt, total)
+			}
+		}
+		if wf == 0 {
+			// only Sync faults so far: nothing is lost, and the sink's Sync is attempted every time
+			if total != accepted {
+				fail("after %s (no sink write has failed): %d of %d accepted bytes are in the sink", what, total, accepted)
+			}
+			if sc != s0+1 {
+				fail("%s reached the sink's Sync %d times, want exactly once (an earlier failed Sync must not make later ones skip the sink)", what, sc-s0)
+			}
+		}
+	}
+	n := rapid.IntRange(2, 14).Draw(t, "ops")
+	nt := false
+	for i := 0; i < n; i++ {
+		switch rapid.SampledFrom([]string{"write", "write", "sync", "sync", "tick", "elapse"}).Draw(t, "op") {
+		case "write":
+			l := rapid.IntRange(1, size+2).Draw(t, "len")
+			k, err := bws.Write(bytes.Repeat([]byte{'x'}, l))
+			hist = append(hist, fmt.Sprintf("W%d=(%d,%v)", l, k, err != nil))
+			_, _, _, wf, _ := sink.snap()
+			if err != nil && wf == 0 {
+				fail("Write returned %v although no sink write has failed", err)
+			}
+			if err == nil {
+				if k != l {
+					fail("Write(%d) = (%d, nil)", l, k)
+				}
+				accepted += l
+			}
+		case "sync":
+			_, s0, _, _, _ := sink.snap()
+			err := bws.Sync()
+			hist = append(hist, fmt.Sprintf("S=%v", err != nil))
+			afterFlush("Sync", err, s0)
+			if _, _, _, wf, sf := sink.snap(); wf+sf > 0 {
+				nt = true
+			}
+		case "tick":
+			ch := clk.channel()
+			if ch == nil {
+				continue
+			}
+			clk.advance(time.Second)
+			_, s0, _, _, _ := sink.snap()
+			select {
+			case ch <- clk.Now():
+			case <-time.After(3 * time.Second):
+				fail("VERIF-DEADLOCK flush loop did not take a tick within 3s")
+			}
+			if !waitFor(func() bool { _, sc, _, wf, _ := sink.snap(); return sc > s0 || wf > 0 }, 3*time.Second) {
+				fail("a flush tick was taken but the sink's Sync was never attempted (after an earlier failed Sync the periodic flush must keep working)")
+			}
+			hist = append(hist, "T")
+		case "elapse":
+			clk.advance(time.Duration(rapid.IntRange(1, 9).Draw(t, "tenths")) * time.Second / 10)
+		}
+	}
+	_, s0, _, _, _ := sink.snap()
+	err := bws.Stop()
+	hist = append(hist, fmt.Sprintf("Stop=%v", err != nil))
+	if clk.channel() != nil {
+		afterFlush("Stop", err, s0)
+	}
+	if n := flushLoopGoroutines(); n > 0 && !waitFor(func() bool { return flushLoopGoroutines() == 0 }, 2*time.Second) {
+		fail("%d flush goroutine(s) still running after Stop", n)
+	}
+	_, _, _, wf, sf := sink.snap()
+	statCase("C12", nt, fmt.Sprintf("faults|%d|w%d s%d|%d", size, wf, sf, n), "sink faults", fmt.Sprintf("write faults %d", min(wf, 2)), fmt.Sprintf("sync faults %d", min(sf, 3)))
+}
+
+func TestC12Faults(t *testing.T) { rapid.Check(t, propC12Faults) }
 
 func TestC12Sequential(t *testing.T) { rapid.Check(t, propC12Sequential) }
 func TestC12Concurrent(t *testing.T) { rapid.Check(t, propC12Concurrent) }
